@@ -19,13 +19,13 @@ from .snap import snapshot, diff
 
 
 # ------------------------------------------------------------------ strategies
-APPEND_KINDS = ['rows', 'rows', 'otherdt', 'list', 'scalar', 'zero', 'layout', 'badshape', 'badrank', 'unconv']
+APPEND_KINDS = ['rows', 'rows', 'otherdt', 'list', 'scalar', 'zero', 'layout', 'badshape', 'badrank', 'unconv', '0d']
 TRUNC_TOKENS = [0, 1, 2, -1, -2, 'half', '-len', 'len', 'len+3', 'len-1', 2.0, 'a', None]
 
 
 @st.composite
 def st_append_arg(draw, valid_only=False):
-    kinds = [k for k in APPEND_KINDS if not (valid_only and k in ('badshape', 'badrank', 'unconv'))]
+    kinds = [k for k in APPEND_KINDS if not (valid_only and k in ('badshape', 'badrank', 'unconv', '0d'))]
     k = draw(st.sampled_from(kinds))
     arg = {'k': k, 'n': draw(st.integers(1, 3)), 'seed': draw(st.integers(0, 2 ** 31))}
     if k == 'otherdt':
@@ -69,7 +69,8 @@ def st_start(draw, max_rank=3):
     shape = [first] + [draw(st.integers(1, 3)) for _ in range(rank - 1)]
     return {'dt': draw(gens.st_dt()), 'shape': shape, 'seed': draw(st.integers(0, 2 ** 31)),
             'how': draw(st.sampled_from(['asarray', 'asarray', 'create'])), 'mode': draw(st.sampled_from(['r+', 'r+', 'r'])),
-            'meta': draw(st.booleans())}
+            'meta': draw(st.booleans()), 'layout': draw(st.sampled_from(['C', 'C'] + gens.LAYOUTS)),
+            'chunklen': draw(st.sampled_from([None, 1, 2, 5]))}
 
 
 @st.composite
@@ -109,6 +110,8 @@ def build_append_operand(arg, m):
         return gens.build_array(m.dtype, (n,) + tail + (2,), {'m': 'safe', 's': seed})
     if k == 'unconv':
         return [['x'] * 2] if seed % 2 else 'abc'
+    if k == '0d':
+        return gens.build_array(m.dtype, (), {'m': 'safe', 's': seed})     # 0-d ndarray: has __len__ but no length
     raise ValueError(k)
 
 
@@ -240,7 +243,11 @@ class ArrayRun:
             self.a = darr.create_array(self.path, shape=shape, dtype=dt, fill=fillv, chunklen=2,
                                        accessmode=start['mode'], metadata=md, **kw)
         else:
-            self.a = darr.asarray(self.path, ref, accessmode=start['mode'], metadata=md, chunklen=2, **kw)
+            x = gens.apply_layout(ref, start.get('layout', 'C'))
+            ref = np.ascontiguousarray(x)
+            if start.get('layout', 'C') != 'C':
+                self.out.cls('created-from-layout:' + start['layout'])
+            self.a = darr.asarray(self.path, x, accessmode=start['mode'], metadata=md, chunklen=start.get('chunklen', 2), **kw)
         self.m = ref.copy()
         self.meta = dict(md) if md else {}
 
@@ -359,6 +366,18 @@ class ArrayRun:
             if self.mode == 'r':
                 self.out.cls('ro-mutator')
                 return self.expect_reject(tag + ':ro', lambda: a.append(x))
+            if arg['k'] == '0d':
+                # rank-0 operand: rejecting it (state unchanged) and storing it as one element of a 1-D array are both legitimate
+                self.out.cls('append-0d')
+                try:
+                    a.append(x)
+                except Exception:
+                    return self.observe(tag + ':after-reject')
+                if m.ndim == 1:
+                    self.m = model_append(m, np.array(x, ndmin=1))
+                    return self.observe(tag)
+                self.out.viol('no-raise', tag, f'step {self.stepno}: 0-d operand accepted by a {m.ndim}-D array')
+                return False
             if newm is None:
                 self.out.cls('rejected-call')
                 return self.expect_reject(tag, lambda: a.append(x))
